@@ -240,7 +240,7 @@ def run(ctx):
     pairs = [(L, P) for L in GRID for P in GRID]
     parallel(ctx, run_pairs, [{'pairs': pairs[i::16]} for i in range(16)])
     run_provider_read_sizes(ctx)
-    run_random(ctx, 8000 if ctx.thorough else 150)
+    run_random(ctx, 8000 if ctx.thorough else 500)
 
 
 def replay(case):
